@@ -145,6 +145,28 @@ def backend_runs(r, quick):
     return len(specs), fails, keys, samples, n_ops, dis, sorted(unmodelled)
 
 
+def escalate(chk, names):
+    """the broken correspondences name optimizers: many more runs of exactly those, on roomy spaces under non-convex constraints,
+    with small populations (each member is evaluated often) and long calls"""
+    r = C.rng("C19-escalate")
+    names = [n for n in names if n in gen.ALL_OPTIMIZERS] or list(FALLBACK_OPTIMIZERS)
+    fails, n = [], 0
+    for name in names[:6]:
+        for _ in range(30):
+            sp = bkgen.scenario(r, name, constraint_p=0.0, sizes=[7, 10, 15, 21], iters=60)
+            if len(sp["space"]) < 2:
+                continue
+            sp["constraint"] = gen.gen_constraint(r, sp["space"], kinds=("ring", "band", "paritysum", "mask"))
+            if "population" in sp["opt_kwargs"]:
+                sp["opt_kwargs"]["population"] = r.choice([2, 3, 4])
+            out, mon, cap = run_one(sp)
+            n += 1
+            fails += mon.fails
+            if mon.fails and len(fails) > 20:
+                break
+    chk.monitor("ESCALATED search (a correspondence broke): C19 statement on many more real runs of the optimizers named by the broken cases", n, fails)
+
+
 def run():
     chk = Check("C19", props_modules=["GFO.Props.C19", "GFO.Props.LocalRuns", "GFO.Props.PopRuns", "GFO.Props.EvoRuns", "GFO.Props.PatternRuns", "GFO.Props.PowellRuns", "GFO.Props.SimplexRuns", "GFO.Props.DirectRuns", "GFO.Props.SmboPosRuns", "GFO.Gen.TrackerGenCheck"], gen_steps=(translators.gen_tracker,))
     chk.build_and_audit()
@@ -167,5 +189,7 @@ def run():
     localgen.add_simplex_to(chk, C.rng("C19-simplex"), C.T(20, 200), constraint_p=0.5, nonfinite_p=0.2)
     localgen.add_direct_to(chk, C.rng("C19-direct"), C.T(20, 200), constraint_p=0.5, nonfinite_p=0.2)
     localgen.add_smbo_to(chk, C.rng("C19-smbo"), C.T(4, 30), constraint_p=0.5, nonfinite_p=0.2)
+    if chk.needs_escalation():
+        chk.stage("escalated search", escalate, chk, chk.broken_opts())
     scen.shutdown_manager()
     return chk.finish()
